@@ -588,14 +588,12 @@ Proof.
   assert (map (split_rec std (st_extras s)) (map rec_bytes (st_recs s)) = st_recs s) as Hsplit.
   { rewrite map_map. rewrite <- (map_id (st_recs s)) at 2. apply map_ext_in. intros r Hr. now apply split_rec_bytes, Hrecs. }
   destruct (st_extras s) as [|d ex] eqn:Eex.
-  - unfold vlr_inv in Hvlr. rewrite Hvlr. cbn [bind]. Show.
-    replace (std + 0) with std in * by lia. rewrite Z.ltb_irrefl.
-    replace (std >? std) with false by lia. rewrite Hlens, Hsplit. destruct s; cbn in *; now subst.
+  - unfold vlr_inv in Hvlr. rewrite Hvlr. cbn [bind]. rewrite Z.ltb_irrefl, Z.gtb_ltb, Z.ltb_irrefl.
+    rewrite Hlens, Hsplit. destruct s; cbn in *; now subst.
   - unfold vlr_inv in Hvlr. destruct Hvlr as (p & Hp & Hf & Hd). rewrite Hf.
     assert (0 < extras_size (d :: ex)) as Hsz by (apply extras_size_pos; [exact Hdims|discriminate]).
     replace (std + extras_size (d :: ex) =? std) with false by lia.
-    cbn [eb_vlr v_data]. rewrite Hd. cbn [bind]. rewrite Z.ltb_irrefl.
-    replace (std + extras_size (d :: ex) >? std + extras_size (d :: ex)) with false by lia.
+    cbn [eb_vlr v_data]. rewrite Hd. cbn [bind]. rewrite Z.ltb_irrefl, Z.gtb_ltb, Z.ltb_irrefl.
     rewrite Hlens, Hsplit. destruct s; cbn in *; now subst.
 Qed.
 
